@@ -151,6 +151,9 @@ type Effect struct {
 	Keep      *Fact // this fact, if it held before the node, survives the node's assignment kill
 	ImplyIf   *Fact // after the node: wherever ImplyIf holds, ImplyThen holds too
 	ImplyThen *Fact
+	// Filter (worlds engine only): after the node a world survives only if Filter says so; sat tells
+	// whether the world satisfies a fact (facts on untracked atoms are satisfiable both ways).
+	Filter func(sat func(Fact) bool) bool
 }
 
 type FactSpec struct {
